@@ -105,7 +105,9 @@ def build(world, base):
     paths = {"root": root, "sentinel": sentinel, "home": home, "scratch": scratch, "base": base}
     g = world.get("git")
     if g:
-        _git(root, "init", "-q", "-b", "main")
+        # "above": the repository's top level is the directory above the project (the project is one package of a
+        # larger work tree); everything else is done from inside the project as before
+        _git(base if g.get("above") else root, "init", "-q", "-b", "main")
         _git(root, "add", *(["-f"] if g.get("force") else []), "--", ".")
         if g.get("force_add"):
             # tracked although a .gitignore pattern matches: Git does not ignore tracked files
